@@ -184,9 +184,21 @@ CATALOG = [
     [["d", [[["i", -2], ["s", "v"]], [["s", "z"], ["i", 0]]]]],
     [["d", [[["s", "k"], ["i", 0]]]]],
     [["d", [[["s", "k"], ["i", 2 ** 61 - 1]]]]],
+    # 37.. (phase 6): STRINGS that are the str() / repr() of another catalogue action or of its table key -- different actions for every learner
+    # (1 != '1'), one action for anything that keys on str(action) / repr(action) / an f-string of it
+    [["s", "1"]],            # str(1), str(make_hashable(1))
+    [["s", "1.0"]],          # str(1.0): the alias 1.0 of class 1
+    [["s", "True"]],         # str(True): the alias True of class 1
+    [["s", "'a'"]],          # repr('a')
+    [["s", "(1, 2)"]],       # str((1, 2)) = str of the key HashableDense((1, 2)) of [1, 2]
+    [["s", "[1, 2]"]],       # str([1, 2])
 ]
 # groups of catalogue classes whose make_hashable keys hash alike although the actions differ
-COLLIDE = [[24, 25], [0, 26], [27, 28], [29, 30], [31, 32], [33, 34], [35, 36]]
+COLLIDE_HASH = [[24, 25], [0, 26], [27, 28], [29, 30], [31, 32], [33, 34], [35, 36]]
+# (phase 6) groups of different actions one of which is the str() / repr() of (a spelling of) the other
+COLLIDE_STR = [[1, 37], [1, 38], [1, 39], [7, 40], [11, 41], [11, 42]]
+# every group of "different actions that a careless key would merge"; offered together by the generators and the deterministic corpus families
+COLLIDE = COLLIDE_HASH + COLLIDE_STR
 for _cls in CATALOG:
     _base = _cls[0]
     if not _base[1]:
@@ -400,6 +412,17 @@ def hash_colliding(actions):
         return False
 
 
+def str_colliding(actions):
+    """True when two different offered actions are told apart by == but not by str() / repr() (one is the text of the other or of its table key)"""
+    try:
+        from coba.learners.bandit import make_hashable
+        ks = [make_hashable(a) for a in actions]
+        txt = [{str(a), repr(a), str(k), repr(k)} for a, k in zip(actions, ks)]
+        return any(not (ks[i] == ks[j]) and (txt[i] & txt[j]) for i in range(len(ks)) for j in range(i + 1, len(ks)))
+    except Exception:
+        return False
+
+
 def run_bandit(case, driver):
     """run the history on the real learner; (B) on every output; then (A) against the Lean model"""
     spec = case["learner"]
@@ -491,6 +514,8 @@ def run_bandit(case, driver):
                 tags.append("actions:alias-spelling")
             if len(set(ids)) == len(ids) and hash_colliding(actions):
                 tags.append("actions:hash-colliding-distinct")
+            if str_colliding(actions):
+                tags.append("actions:str-colliding-distinct")
             for r_ in refs:
                 d_ = case["pool"][r_[0]][r_[1]]
                 if d_[0] == "w":
@@ -1123,6 +1148,8 @@ def run_corral(case, driver):
             twin = None
         elif hash_colliding(actions):
             tags.append("actions:hash-colliding-distinct")
+        if str_colliding(actions):
+            tags.append("actions:str-colliding-distinct")
         names = renamed(ids)
         # ---- score of one action (draws from the base learners)
         if op.get("score") is not None:
@@ -1275,6 +1302,12 @@ def run_corral(case, driver):
                     k, acc["accepts"], la, r, lp, "outside" if outside else "inside"), "accepts")
             if acc["accepts"] and acc["learn_err"] is not None:
                 fails.append(F("C", "model: the tower accepts the feedback but its learn raises %s" % acc["learn_err"], "C:corral-accepts"))
+            if not acc["accepts"]:
+                # phase 6, theorem rejected_feedback_raises: rejected feedback makes the model's learn raise, and only the Corral's own assert / the division by p
+                tags.append("C:rejected-feedback-raises:%s" % acc["learn_err"])
+                if acc["learn_err"] not in ("AssertionError", "ZeroDivisionError"):
+                    fails.append(F("C", "model: the tower rejects the feedback but its learn %s" % (
+                        "returns" if acc["learn_err"] is None else "raises " + acc["learn_err"]), "C:corral-rejects"))
             if outside and not acc["accepts"]:
                 # outside the property's quantifier (not judged by (B)); the model says the composition REJECTS this feedback: the real learn must raise
                 # the inner Corral's AssertionError
@@ -1708,7 +1741,10 @@ def gen_pool(rng, nmax=7):
     if rng.chance(0.4):       # the ints 0 and 1 among the actions (SafeLearner rewrites them for its learner and keeps a private copy of the list)
         cls = [0, 1] + [c_ for c_ in cls if c_ not in (0, 1)][:max(0, nmax - 2)]
     if rng.chance(0.15):      # different actions with one hash (CPython: hash(-1) == hash(-2), hash(2**61-1) == hash(0)) side by side
-        grp = [c_ for g_ in rng.sample(COLLIDE, rng.choice([1, 1, 2])) for c_ in g_]
+        grp = [c_ for g_ in rng.sample(COLLIDE_HASH, rng.choice([1, 1, 2])) for c_ in g_]
+        cls = (grp + [c_ for c_ in cls if c_ not in grp])[:max(nmax, 2)]
+    elif rng.chance(0.12):    # phase 6: an action and the string that is its str() / repr() side by side (1 and '1', 'a' and "'a'", [1, 2] and '(1, 2)')
+        grp = list(rng.choice(COLLIDE_STR))
         cls = (grp + [c_ for c_ in cls if c_ not in grp])[:max(nmax, 2)]
     pool = [list(CATALOG[i]) for i in cls]
     if rng.chance(0.35):      # what a real pipeline delivers: every dense / sparse action is one of coba's row objects (alias 0 = the default spelling)
@@ -1902,7 +1938,10 @@ def gen_eqm(rng, tier, collide=None):
         collide = rng.chance(0.5)
     others = [c_ for c_ in range(len(CATALOG))]
     if collide:
-        grp = list(rng.choice(COLLIDE))
+        grp = list(rng.choice(COLLIDE_HASH))
+        cls = grp + rng.sample([c_ for c_ in others if c_ not in grp], rng.randint(0, 2))
+    elif rng.chance(0.3):     # phase 6: str()/repr()-colliding pair side by side
+        grp = list(rng.choice(COLLIDE_STR))
         cls = grp + rng.sample([c_ for c_ in others if c_ not in grp], rng.randint(0, 2))
     else:
         cls = rng.sample(others, rng.randint(1, 4))
@@ -1952,7 +1991,7 @@ def gen_eqm(rng, tier, collide=None):
 def eqm_corpus():
     """deterministic members of the equal-members family: every learner kind x (a plain pool, each hash-colliding pair) with one fixed history"""
     cs = []
-    pools = [[11, 7, 1]] + [g_ + [7] for g_ in COLLIDE]
+    pools = [[11, 7, 1]] + [g_ + [7 if 7 not in g_ else 8] for g_ in COLLIDE]
     for cls in pools:
         pool = [list(CATALOG[i]) for i in cls]
         alt = [min(1, len(c_) - 1) for c_ in pool]
@@ -2054,7 +2093,10 @@ class C16(Property):
             "offered action was observed, equal members equal; every Corral history is additionally led ONCE as a whole (first 30 learns) through the float-faithful "
             "Corral.learnF (losses, root search, normalisation, p-bar smoothing, eta/rho) and compared bit for bit with _ps/_p_bars/_etas/_rhos; on every nested round the "
             "decidable predicate acceptsB is compared with the rewards the inner Corrals are handed and, when it rejects, with the real learn raising AssertionError; "
-            "SafeLearner's memoised (_pred_batch,_pred_kwargs,_pred_format) after the first predict is compared with the model's stAfter.")
+            "SafeLearner's memoised (_pred_batch,_pred_kwargs,_pred_format) after the first predict is compared with the model's stAfter. Phase 6: 6 catalogue classes of STRINGS that are "
+            "the str()/repr() of another catalogue action or of its table key ('1', '1.0', 'True', \"'a'\", '(1, 2)', '[1, 2]'); 12% of the pools (and 15% of the equal-members pools) start with "
+            "such a pair offered together (tag actions:str-colliding-distinct), the deterministic collision corpus (bandit x5, Corral, equal-members x6) runs on each of the 6 pairs, renamed twin always on; "
+            "on every nested round the model REJECTS, its learn must raise AssertionError / ZeroDivisionError (theorem rejected_feedback_raises, (C)).")
     trusted_base = [
         "floats are modelled by rationals; the running means of BanditEpsilon/BanditUCB go through a rounding parameter `fl` (theorems: for every fl; driver: "
         "round-to-nearest-even binary64 implemented in Lean and checked against CPython on 3000 values), so ties are the implementation's ties; the final "
@@ -2331,7 +2373,7 @@ class C16(Property):
                 cs.append({"t": "corral", "bases": nb, "eta": q(0.1), "T": [50, 1], "mode": mode, "seed": 4, "pool": pool, "hist": rounds(40, how="on")})
         # different actions whose table keys hash alike (round g, C16-gm2): every colliding pair of the catalogue, every learner that keeps a table
         for g_ in COLLIDE:
-            cpool = [CATALOG[g_[0]], CATALOG[g_[1]], CATALOG[7]]
+            cpool = [CATALOG[g_[0]], CATALOG[g_[1]], CATALOG[7 if 7 not in g_ else 8]]
             al = [min(1, len(CATALOG[g_[0]]) - 1), min(1, len(CATALOG[g_[1]]) - 1)]
             two, three = [[0, 0], [1, 0]], [[1, al[1]], [0, al[0]], [2, 0]]
             chist = [{"op": "scores", "actions": two}, {"op": "learn", "a": [0, 0], "r": [1, 1]}, {"op": "scores", "actions": two}, {"op": "predict", "actions": two},
